@@ -27,6 +27,8 @@ enum Op {
     PatchUpdate { path: &'static str },
     PatchMove { from: &'static str, to: &'static str },
     PatchDelete { path: &'static str },
+    /// one apply_patch call with several ops (the same source twice, add-then-move, ...)
+    PatchMulti { which: u8 },
     ExternalDelete { path: &'static str },
     MkdirAtFile { path: &'static str },
     FileAtDir,
@@ -63,6 +65,17 @@ fn alphabet(tier: Tier) -> Vec<Op> {
     }
     ops
 }
+
+fn multi_patch(which: u8) -> &'static str {
+    match which {
+        0 => "*** Update File: a\n@@\n+u\n*** Update File: a\n*** Move to: c\n@@\n+m\n",
+        1 => "*** Add File: n\n+1\n*** Update File: n\n*** Move to: m\n@@\n+2\n",
+        2 => "*** Update File: a\n@@\n+u\n*** Delete File: d/b\n",
+        _ => "*** Delete File: a\n*** Add File: a\n+new\n",
+    }
+}
+
+const MULTI_PATCHES: u8 = 4;
 
 fn is_rewind(op: &Op) -> bool {
     matches!(op, Op::Rewind { .. })
@@ -123,6 +136,7 @@ fn op_json(op: &Op) -> Value {
         Op::PatchUpdate { path } => json!({"op": "patch_update", "path": path}),
         Op::PatchMove { from, to } => json!({"op": "patch_move", "from": from, "to": to}),
         Op::PatchDelete { path } => json!({"op": "patch_delete", "path": path}),
+        Op::PatchMulti { which } => json!({"op": "patch_multi", "which": which, "patch": multi_patch(*which)}),
         Op::ExternalDelete { path } => json!({"op": "external_delete", "path": path}),
         Op::MkdirAtFile { path } => json!({"op": "mkdir_at_file_path", "path": path}),
         Op::FileAtDir => json!({"op": "replace_dir_d_by_file"}),
@@ -194,13 +208,14 @@ fn execute(report: &Report, ctx: &Ctx, session: &str, history: &[Op]) -> bool {
                     report.violation("C14:checkpoint:changed_workspace", case_json(ctx, hist), "creating a checkpoint changed workspace files");
                 }
             }
-            Op::Write { .. } | Op::PatchAdd { .. } | Op::PatchUpdate { .. } | Op::PatchMove { .. } | Op::PatchDelete { .. } => {
+            Op::Write { .. } | Op::PatchAdd { .. } | Op::PatchUpdate { .. } | Op::PatchMove { .. } | Op::PatchDelete { .. } | Op::PatchMulti { .. } => {
                 let (name, args) = match op {
                     Op::Write { path, content } => ("write", json!({"path": path, "content": content})),
                     Op::PatchAdd { path } => ("apply_patch", patch(&format!("*** Add File: {path}\n+n\n"))),
                     Op::PatchUpdate { path } => ("apply_patch", patch(&format!("*** Update File: {path}\n@@\n+u\n"))),
                     Op::PatchMove { from, to } => ("apply_patch", patch(&format!("*** Update File: {from}\n*** Move to: {to}\n@@\n+m\n"))),
                     Op::PatchDelete { path } => ("apply_patch", patch(&format!("*** Delete File: {path}\n"))),
+                    Op::PatchMulti { which } => ("apply_patch", patch(multi_patch(*which))),
                     _ => unreachable!(),
                 };
                 let events = run_tool(ctx, session, &mut seq, name, args);
@@ -372,6 +387,43 @@ fn worker(opts: Opts) -> i32 {
     let n = ops.len();
     let mut counter = 0usize;
     let mut sess_no = 0u64;
+    // second pass: histories of <= 3 (quick) / 4 (thorough) ops that contain a multi-op patch
+    {
+        let mut ext = ops.clone();
+        for w in 0..MULTI_PATCHES {
+            ext.push(Op::PatchMulti { which: w });
+        }
+        let m = ext.len();
+        let d2 = depth.saturating_sub(2).max(2);
+        for len in 2..=d2 {
+            let total = m.pow(len as u32);
+            for code in 0..total {
+                let mut c = code;
+                let mut idxs = Vec::with_capacity(len);
+                for _ in 0..len {
+                    idxs.push(c % m);
+                    c /= m;
+                }
+                if !is_rewind(&ext[idxs[len - 1]]) || !idxs.iter().any(|&i| matches!(ext[i], Op::PatchMulti { .. })) {
+                    continue;
+                }
+                counter += 1;
+                if counter % of != shard {
+                    continue;
+                }
+                if report.over_cap() {
+                    break;
+                }
+                let history: Vec<Op> = idxs.iter().map(|&i| ext[i].clone()).collect();
+                sess_no += 1;
+                let session = format!("s{shard}-m{sess_no}");
+                if execute(&report, &ctx, &session, &history) {
+                    report.eval(Some(&(&history, &ctx.cwd_mode)));
+                    report.count("histories_with_a_multi_op_patch", 1);
+                }
+            }
+        }
+    }
     for len in 1..=depth {
         let total = n.pow(len as u32);
         for code in 0..total {
@@ -420,7 +472,7 @@ pub fn run(opts: Opts) -> i32 {
     let report = Report::new("C14", "exploration", opts.clone());
     report.set_rule(
         "every history of <= depth ops ending in a rewind over {manual checkpoint of path subsets given relative/absolute, write tool, \
-         apply_patch add/update/move/delete, external delete, directory created at a file path, directory replaced by a file, \
+         apply_patch add/update/move/delete, multi-op patches (same source twice with a move, add-then-move, update+delete, delete-then-add; in histories of <= depth-2 ops), external delete, directory created at a file path, directory replaced by a file, \
          rewind to first/second/last checkpoint (manual or automatic)} from the state {a, d/b}, executed on the real ToolRunner + \
          production checkpoint hook, for process cwd = root and != root (a decoy tree with the same relative names sits in the other \
          directory); distinct non-trivial = history (per cwd mode) in which a rewind targets an existing checkpoint",
@@ -458,7 +510,10 @@ pub fn run(opts: Opts) -> i32 {
 fn replay(report: &Report, case: &Value) -> i32 {
     let cwd_mode = case["process_cwd"].as_str().unwrap_or("root").to_string();
     let (_dir, ctx) = make_ctx(&cwd_mode);
-    let all = alphabet(Tier::Thorough);
+    let mut all = alphabet(Tier::Thorough);
+    for w in 0..MULTI_PATCHES {
+        all.push(Op::PatchMulti { which: w });
+    }
     let mut history = Vec::new();
     for h in case["history"].as_array().cloned().unwrap_or_default() {
         if let Some(op) = all.iter().find(|o| op_json(o) == h) {
